@@ -18,6 +18,7 @@
 import Cello.Heap
 import Cello.HeapRec
 import Cello.HeapMid
+import Cello.HeapWalk
 import Std.Data.HashMap
 import Std.Data.HashSet
 
@@ -1311,10 +1312,39 @@ def MState.touchesDeep (st : MState) (w : List String) : Bool :=
   | "copy" :: _ :: s :: _ => isD s
   | _ => false
 
+/-! ### `walk <id>` (extension round): what the container's Mark instance hands to a recording callback — computed by running the loop terms the
+    translator extracts from the current source (`CelloGen.GcWalk`, interpreted by Cello/HeapWalk.lean) on the container's block: Array / List / heap
+    Tuple of `n` positions, a Table laid out densely (the number of calls of a complete loop does not depend on the layout; which slots the entries
+    really occupy — first, last, wrapped — is the harness oracle's side).  `Tree_Mark` walks with `Tree_Iter_Init` / `Tree_Iter_Next` (C02 / C03). -/
+def walkCalls (kind : Kind) (n : Nat) : Option Nat :=
+  let inBlock (vs : List Nat) : Nat := (vs.filter (· < n)).length
+  match kind with
+  | .A => CelloGen.GcWalk.arrayMarkLoop.map fun L => inBlock (L.visits n) * (L.presents.filter (· == .item)).length
+  | .T => CelloGen.GcWalk.tableMarkLoop.map fun L => (Walk.tablePresented L ((List.range n).map fun i => some (.raw "Int" [i], .raw "Int" [i]))).length
+  | .L => CelloGen.GcWalk.listMarkLoop.map fun L => inBlock (L.visits n)
+  | .H => CelloGen.GcWalk.tupleMarkLoop.map fun L => inBlock (L.visits n)
+  | .E => some (2 * n)
+  | _ => none
+
+def MState.walkOp (st : MState) (ids : String) : MState × List String :=
+  match (parseLong ids).bind natOf with
+  | some id =>
+    match st.objs[id]? with
+    | some o =>
+      if !(o.kind.isArr || o.kind.isMap || o.kind = .H) then bad st else
+      let n := o.el.size
+      (match walkCalls o.kind n with
+       | some c => (st, [s!"O walk n={n} calls={c} missing={(if o.kind.isMap then 2 * n else n) - c} extra=0"])
+       | none => (st, [s!"O walk n={n} calls=? (the loop of this Mark instance is outside the modelled family)"]))
+    | none => bad st
+  | none => bad st
+
 /-- one op line (already split into words) -/
 def MState.step (st : MState) (w : List String) : MState × List String :=
   if w.length > 40 then bad st else
   match w with
+  | ["walk", "tls"] => (st, ["O walk tls missing=0 extra=0"])
+  | ["walk", ids] => st.walkOp ids
   | "xin" :: ks :: rest =>
     let toks := rest.takeWhile (· != "|")
     let opw := (rest.dropWhile (· != "|")).drop 1
